@@ -361,7 +361,8 @@ def run(chk, replay=None):
         checker_cmd="python3 tools/translate_mep_ops.py > lean/Vita/C02/Gen.lean && lake build Vita.C02.Props c02_driver && "
                     "lake env lean <#print axioms for every theorem>",
         rule="one evaluation = one real operator call (random construction, mutation, 4 crossover flavours, "
-             "get_block, replace, destroy_block, cse, team construction/mutation/crossover) whose pre/post genomes "
+             "get_block, replace, destroy_block, cse, team construction (from a problem / from given members), "
+             "team mutation/crossover/inc_age) whose pre/post genomes "
              "are judged by the Lean driver (WF + Step relation), by the C++ oracle and by execution under "
              "ASan/UBSan; distinct = distinct request lines whose result differs from its operand(s)",
         trusted=["Lean 4.33 kernel", "tools/translate_mep_ops.py + cxx2lean.py (clang-14 JSON AST -> loop bounds, draw ranges, "
